@@ -130,8 +130,9 @@ type FuncResult struct {
 // GenFunction generates obligations for fn against its contract.
 func GenFunction(prog *Program, fn *ssa.Function, ct *FuncContract) *FuncResult {
 	var seed []string
+	seedSorts := map[string]Sort{}
 	for iter := 0; iter < 6; iter++ {
-		g, err := genOnce(prog, fn, ct, seed)
+		g, err := genOnce(prog, fn, ct, seed, seedSorts)
 		if err != nil {
 			return &FuncResult{Fn: fn.String(), Err: err}
 		}
@@ -152,9 +153,7 @@ func GenFunction(prog *Program, fn *ssa.Function, ct *FuncContract) *FuncResult 
 	return &FuncResult{Fn: fn.String(), Err: fmt.Errorf("heap class discovery did not converge")}
 }
 
-var seedSorts map[string]Sort
-
-func genOnce(prog *Program, fn *ssa.Function, ct *FuncContract, seed []string) (g *FuncGen, err error) {
+func genOnce(prog *Program, fn *ssa.Function, ct *FuncContract, seed []string, seedSorts map[string]Sort) (g *FuncGen, err error) {
 	defer func() {
 		if r := recover(); r != nil {
 			if ue, ok := r.(unsupportedErr); ok {
@@ -892,26 +891,35 @@ func (g *FuncGen) checkInvariant(li *loopInfo, p *ssa.BasicBlock, cond string, k
 		henv := g.envAtLoopHead(li, nil, li.headState)
 		splitTerm = g.tr(henv, &EIdent{li.spec.SplitVar})
 	}
-	for i, inv := range li.spec.Invariants {
-		t := g.trBool(env, inv.E, "")
-		name := fmt.Sprintf("%s/loop%d/inv#%d/%s", g.fnName, li.ordinal, i+1, kind)
-		if kind == "entry" && len(g.entryPreds(li)) > 1 {
+	if split {
+		// one obligation per counter value, all invariants conjoined (keeps the obligation count down)
+		var all []string
+		var texts []string
+		for _, inv := range li.spec.Invariants {
+			all = append(all, g.trBool(env, inv.E, ""))
+			texts = append(texts, inv.Text)
+		}
+		name := fmt.Sprintf("%s/loop%d/inv/%s", g.fnName, li.ordinal, kind)
+		if g.numBackEdges(li) > 1 {
 			name += fmt.Sprintf("@b%d", p.Index)
 		}
-		if kind == "preserve" && g.numBackEdges(li) > 1 {
-			name += fmt.Sprintf("@b%d", p.Index)
+		var cases []string
+		for k := li.spec.SplitLo; k <= li.spec.SplitHi; k++ {
+			cs := eq(splitTerm.T, g.litFor(splitTerm, int64(k)))
+			cases = append(cases, cs)
+			emit(fmt.Sprintf("%s[%s=%d]", name, li.spec.SplitVar, k), and(all...), strings.Join(texts, " && "), []string{cs})
 		}
-		if split {
-			var cases []string
-			for k := li.spec.SplitLo; k <= li.spec.SplitHi; k++ {
-				cs := eq(splitTerm.T, g.litFor(splitTerm, int64(k)))
-				cases = append(cases, cs)
-				emit(fmt.Sprintf("%s[%s=%d]", name, li.spec.SplitVar, k), t, inv.Text, []string{cs})
+		emit(fmt.Sprintf("%s/loop%d/split-exhaustive", g.fnName, li.ordinal), or(cases...), "split cases cover all values", nil)
+	} else {
+		for i, inv := range li.spec.Invariants {
+			t := g.trBool(env, inv.E, "")
+			name := fmt.Sprintf("%s/loop%d/inv#%d/%s", g.fnName, li.ordinal, i+1, kind)
+			if kind == "entry" && len(g.entryPreds(li)) > 1 {
+				name += fmt.Sprintf("@b%d", p.Index)
 			}
-			if i == 0 {
-				emit(fmt.Sprintf("%s/loop%d/split-exhaustive", g.fnName, li.ordinal), or(cases...), "split cases cover all values", nil)
+			if kind == "preserve" && g.numBackEdges(li) > 1 {
+				name += fmt.Sprintf("@b%d", p.Index)
 			}
-		} else {
 			emit(name, t, inv.Text, nil)
 		}
 	}
